@@ -208,6 +208,23 @@ def run(replay=None):
             stats["getbase_queries"] += len(want.split()) - 3
             if got != want:
                 corr_bad.append((byid[cid], "getbase", want, got))
+    # at scale: decks with far more than 2^16 clause ids (index types of the push machinery)
+    bigs = [(12000, ck.rng.randrange(1 << 20)), (ck.rng.choice([5000, 20000, 40000]), ck.rng.randrange(1 << 20))]
+    if not quick:
+        bigs += [(ck.rng.choice([9000, 30000, 70000]), ck.rng.randrange(1 << 20)) for _ in range(6)]
+    rcb, bout, berr = common.run_prog(exe_h, "case big\n" + "".join(f"bigpush {n} {sd}\n" for n, sd in bigs) + "end\n", timeout=1800)
+    stats["big_decks"] = 0; stats["big_clauses_max"] = 0
+    for l in bout.splitlines():
+        if " BP " in l:
+            f = dict(x.split("=", 1) for x in l.split(" BP ")[1].split()[:3])
+            stats["big_decks"] += 1
+            stats["big_clauses_max"] = max(stats["big_clauses_max"], int(f["clauses"]))
+            stats["oracle_points"] += int(f["pts"])
+            if int(f["bad"]):
+                ck.violation("value:big", "a specialised tape of a large deck (more than 2^16 clauses) disagrees with the base tape inside its region",
+                             {"stdin": "case big\nbigpush " + " ".join(str(x) for x in bigs[0]) + "\nend\n", "detail": l})
+    if rcb != 0 or stats["big_decks"] != len(bigs):
+        ck.violation("crash", f"the large-deck push scenario crashed or gave no answer (rc={rcb})", {"stderr": berr[-1500:]})
     if corr_bad:
         p, inp, e, m = corr_bad[0]
         ck.violation("correspondence", "model Tape::push and implementation produce different tapes",
